@@ -43,9 +43,11 @@ def setup():
     return state
 
 
-def do_run(step, state, want_trace, want_snap):
+def do_run(step, state, want_trace, want_snap, live):
     from src.scenarios.run_model_no_trade import ScenarioRunnerNoTrade
-    opts = copy.deepcopy(step["options"])
+    # the caller's dictionary: ONE object per preset and process, reused by every step that names the preset
+    # (as run_many_options / the yaml loop do); it is never repaired here, so a run that modifies it leaks
+    opts = live[step["preset"]]
     opts_fp = T.fingerprint(opts)
     countries = list(step["countries"])
     clist_fp = T.fingerprint(countries)
@@ -58,7 +60,7 @@ def do_run(step, state, want_trace, want_snap):
     try:
         with quiet():
             r = ScenarioRunnerNoTrade().run_model_no_trade(
-                title=step.get("title", "c14_" + step["id"]), create_pptx_with_all_countries=False, show_country_figures=False,
+                title="c14", create_pptx_with_all_countries=False, show_country_figures=False,
                 show_map_figures=False, add_map_slide_to_pptx=False, scenario_option=opts, countries_list=countries,
                 return_results=True)
         results = r[3]
@@ -74,7 +76,8 @@ def do_run(step, state, want_trace, want_snap):
     out["secs"] = round(time.time() - t0, 2)
     out["options_unchanged"] = (T.fingerprint(opts) == opts_fp) and (T.fingerprint(countries) == clist_fp)
     if not out["options_unchanged"]:
-        out["options_after"] = T.fingerprint(opts)[:400]
+        out["options_before"] = opts_fp[:600]
+        out["options_after"] = T.fingerprint(opts)[:600]
     out["results"] = {}
     for cname, interp in results.items():
         parts = T.result_parts(interp)
@@ -125,6 +128,7 @@ def do_overwrite(step, kept):
 def run(payload):
     t0 = time.time()
     state = setup()
+    live = {k: copy.deepcopy(v) for k, v in payload["presets"].items()}
     want_trace = payload.get("trace", True)
     want_snap = payload.get("snapshot", True)
     steps_out = []
@@ -135,7 +139,7 @@ def run(payload):
         tag += 1
         T.REC.tag = tag
         if step["kind"] == "run":
-            o, results = do_run(step, state, want_trace, want_snap)
+            o, results = do_run(step, state, want_trace, want_snap, live)
             for cname, interp in results.items():
                 kept[step["id"] + "/" + cname] = interp
                 last[cname] = interp
@@ -151,10 +155,14 @@ def run(payload):
                 r["late_digest"] = T.digest(T.result_parts(kept[o["id"] + "/" + cname]))["all"]
     out = {"steps": steps_out, "pid": os.getpid(), "secs": round(time.time() - t0, 2)}
     if want_trace:
-        tags = sorted({e[0] for e in T.REC.events})
-        out["traces"] = {str(t): T.REC.take(t) for t in tags}
+        segs = []
+        for t, k, c, v in T.REC.events:
+            if not segs or segs[-1][0] != t:
+                segs.append([t, []])
+            segs[-1][1].append([k, c, v])
+        out["segments"] = segs
         out["cells"] = sorted(T.REC.cells, key=T.REC.cells.get)
-        out["nvalues"] = len(T.REC.values)
+        out["values"] = sorted(T.REC.values, key=T.REC.values.get)
     import shutil
     shutil.rmtree(os.path.join(os.environ.get("VERIF_WORK", "/verif/work/C14"), "results_%d" % os.getpid()), ignore_errors=True)
     return out
